@@ -76,7 +76,7 @@ def checkGrp : P String := do
   -- aggregates
   let implGroups := dump.order
   let mut nAgg := 0
-  for _ in [0:5] do
+  for _ in [0:6] do
     expect "AGG"
     let kind ← next
     let cols ← pList pStr
@@ -153,6 +153,11 @@ def checkGrp : P String := do
         c02 := "fail:second-aggregate-sees-edit-of-first-result"
         c05 := firstFail c05 "fail:second-aggregate-sees-edit-of-first-result"
     else if rb != "err" then c02 := s!"fail:reaggregate-{rb}"
+  -- KeyOrder still names every group once after a returned aggregate was edited in place
+  expect "KO2"
+  let ko2 ← pList pCell
+  if status == "ok" && ko2 != dump.order.map (·.1) then
+    c04 := firstFail c04 "fail:keyorder-changed-by-editing-a-returned-aggregate"
   -- grouping again after an in-place edit sees the edit
   expect "REGROUP"
   let rg ← next
